@@ -124,6 +124,23 @@ def sql_string(s, i):
     raise Unparsed("unterminated string in %r" % s)
 
 
+def sql_literal_body(s, i):
+    """'..' lexed like MySQL does (backslash escapes on, '' is a quote) -> (body between the outer quotes, still escaped, next)"""
+    i = expect(s, i, "'")
+    j = i
+    while j < len(s):
+        if s[j] == "\\" and j + 1 < len(s):
+            j += 2
+            continue
+        if s[j] == "'":
+            if j + 1 < len(s) and s[j + 1] == "'":
+                j += 2
+                continue
+            return s[i:j], j + 1
+        j += 1
+    raise Unparsed("unterminated string in %r" % s)
+
+
 def parse_coldef(s):
     """`name` type [NOT NULL] [DEFAULT e] [PRIMARY KEY] [AUTO_INCREMENT] [COMMENT '..'] (e verbatim)"""
     name, i = ident(s, 0)
@@ -144,10 +161,11 @@ def parse_coldef(s):
     if rest.startswith(" NOT NULL"):
         cd["notnull"] = True
         rest = rest[len(" NOT NULL"):]
-    # trailing COMMENT '...' (appended by modify_column_comment.rs with '' escaping)
+    # trailing COMMENT '...': appended by modify_column_comment.rs with '' escaping, or rendered by sea-query
+    # (ColumnSpec::Comment, escape_string: backslash escapes); the body is kept as emitted, Model/Gen.v models both escapings
     k, mm = scan_top(rest, 0, lambda p: rest.startswith(" COMMENT '", p))
     if mm:
-        txt, e = sql_string(rest, k + len(" COMMENT "))
+        txt, e = sql_literal_body(rest, k + len(" COMMENT "))
         if e != len(rest):
             raise Unparsed("text after COMMENT in %r" % s)
         cd["comment"] = txt
